@@ -36,6 +36,13 @@ add("C08", "exploration",
     "Trusted: Fraction(float) exactness, nlrun serialiser, Hypothesis.",
     "DESIGN.md §3 C08")
 
+add("C16", "exploration",
+    "property-based testing (Hypothesis): stated round-trips plus independent Python encoders/decoders (int, Fraction, binascii, base64, gzip, json)",
+    "Every codec pair is checked as a round-trip and against an independent Python implementation in both directions; integer "
+    "rendering through str/$/print/format flags is compared for the same value in small and big representation.",
+    "Trusted: CPython codecs and json, nlrun serialiser, Hypothesis. str_radix(0,b) accepts \"\" or \"0\".",
+    "DESIGN.md §3 C16")
+
 NOT_APPLICABLE = {
 }
 
